@@ -306,8 +306,8 @@ def loop_to_linkcc(src, dst):
     return n
 
 
-_REASON = {"healthy": "Healthy", "high_rtt": "Delay", "no_traffic": "NoTraffic", "low_share": "LowShare",
-           "bypassed": "Bypassed"}
+_REASON = {"healthy": "Healthy", "high_rtt": "Delay", "queue_building": "Delay", "no_traffic": "NoTraffic",
+           "low_share": "LowShare", "bypassed": "Bypassed"}
 
 
 def loop_to_weakobs(src, dst):
@@ -428,6 +428,7 @@ class Verdict:
         self.drifts = []
         self.violations = []   # (key, what, replay_payload)
         self.known = []
+        self.vacuities = []
 
     def add_model(self, name, r, exhaustive=True, note=None):
         self.coverage["states"] += r["distinct"]
@@ -473,6 +474,8 @@ class Verdict:
             self.violations.append((key, what, payload))
 
     def finish(self):
+        if self.vacuities and not self.violations:
+            raise ToolError("vacuous run: " + "; ".join(self.vacuities))
         wall = round(time.time() - self.t0, 1)
         cov = self.coverage
         if not cov["samples"]:
@@ -507,7 +510,14 @@ def slug(s):
 
 
 def vacuous(msg):
-    raise ToolError("vacuous run: " + msg)
+    """A part that ran without exercising what it is there for decides nothing.  The complaint is kept until the
+    check is over: a later part may still find a violation (a change to the code can be what silenced a counter),
+    and a violation wins; with none, the run ends as a tool error."""
+    v = CURRENT[0]
+    if v is None:
+        raise ToolError("vacuous run: " + msg)
+    log("vacuous part (decided at the end of the check): " + msg)
+    v.vacuities.append(msg)
 
 
 def model_check_part(v, name, module, cfg, tier, key_prefix, workers=None, timeout=900, exhaustive=True,
